@@ -176,11 +176,11 @@ def gen_case(rng, scheme=None, n=None, idx=None, vec=None, with_ds=None, smax_ca
                 v = wu
             elif r < 0.40 and not lb_inf:
                 v = wl
-            elif r < 0.55 and not ub_inf:
+            elif r < 0.55 and not ub_inf and h >= Fraction(1, 2**30):
                 v = wu - h / rng.pick([2, 4])  # strictly inside, closer to the bound than one step
-            elif r < 0.62 and not lb_inf:
+            elif r < 0.62 and not lb_inf and h >= Fraction(1, 2**30):
                 v = wl + h / rng.pick([2, 4])
-            elif r < 0.70 and not ub_inf:
+            elif r < 0.70 and not ub_inf and h >= Fraction(1, 2**30):
                 v = wu - h  # the forward point lands exactly on the bound
             elif r < 0.78 and wl <= 0 <= wu:
                 v = Fraction(0)
@@ -387,7 +387,7 @@ def compare(case, impl, ans: str) -> tuple[bool, bool, str]:
         return False, False, f"Jacobian shape {impl['J'].shape} is not the model's ({case['m']}, {len(cols)})"
     exact = True
     hmin = min(abs(step_of(case, c)) for c in range(case["n"]))
-    slack = Fraction(0)
+    slack = Fraction(1, 2**960)  # float64 underflow (complex step with steps down to 2^-300)
     if impl.get("inexact"):
         slack = Fraction(1, 2**49) * impl["fmax"] / hmin
     for k, col in enumerate(cols):
